@@ -53,8 +53,8 @@ MUTANTS = [
     ("vt.contracts.einsum_eq", "get_einsum_eq", "cotengra/core.py", "            for i, ix in enumerate(unique(itertools.chain(l_inds, r_inds)))\n        }", "            for i, ix in enumerate(unique(itertools.chain(l_inds, r_inds)))\n            if not ix.isascii()\n        }"),
     ("vt.contracts.einsum_eq", "get_einsum_eq", "cotengra/core.py", "enumerate(unique(itertools.chain(l_inds, r_inds)))", "enumerate(unique(l_inds))"),
     ("vt.contracts.einsum_eq", "get_einsum_eq", "cotengra/core.py", "ord(ix): get_symbol(i)", "ord(ix): get_symbol(i % 52)"),
-    ("vt.contracts.hyper_score", "SlicedTrialFn", "cotengra/hyperoptimizers/hyper.py", "        tree.slice_(**self.opts)\    ("vt.contracts.reusable_policy", "update_from_tree", "cotengra/reusable.py", '                if new_con["score"] < old_con["score"]:', '                if new_con["score"] > old_con["score"]:'),
-n        trial.update(tree.contract_stats())", "        trial.update(tree.contract_stats())\n        tree.slice_(**self.opts)"),
+    ("vt.contracts.hyper_score", "SlicedTrialFn", "cotengra/hyperoptimizers/hyper.py", "        tree.slice_(**self.opts)\n        trial.update(tree.contract_stats())", "        trial.update(tree.contract_stats())\n        tree.slice_(**self.opts)"),
+    ("vt.contracts.reusable_policy", "update_from_tree", "cotengra/reusable.py", '                if new_con["score"] < old_con["score"]:', '                if new_con["score"] > old_con["score"]:'),
     ("vt.contracts.core_slice", "ContractionTree.slice", "cotengra/core.py", "        sf = SliceFinder(\n            tree,", "        sf = SliceFinder(\n            self,"),
     ("vt.contracts.core_remove_ind,vt.contracts.legs_rules,vt.contracts.utils_maxcounter", "remove_ind", "cotengra/core.py", "            si = SliceInfo(ind not in tree.output, ind, 1, project)", "            si = SliceInfo(ind not in tree.output, ind, d, project)"),
     ("vt.contracts.core_reconfigure,vt.contracts.core_remove_ind,vt.contracts.legs_rules,vt.contracts.utils_maxcounter", "subtree_reconfigure", "cotengra/core.py", "            subtree_rng = get_rng(seed) if rng is None else rng", "            subtree_rng = rng"),
